@@ -95,7 +95,7 @@ func cleanup(indexDir string, repos []uint32, now time.Time, shardMerging bool) 
 		// tombstone the compound shards so we don't just rm them.
 		simple := shards[:0]
 		for _, s := range shards {
-			if shardMerging && maybeSetTombstone([]shard{s}, repo) {
+			if (shardMerging || servesOtherRepos(s, repo)) && maybeSetTombstone([]shard{s}, repo) {
 				continue
 			}
 
@@ -144,7 +144,7 @@ func cleanup(indexDir string, repos []uint32, now time.Time, shardMerging bool) 
 		// contain other repos, and only trash the simple shards.
 		simple := shards[:0]
 		for _, s := range shards {
-			if shardMerging && maybeSetTombstone([]shard{s}, repo) {
+			if (shardMerging || servesOtherRepos(s, repo)) && maybeSetTombstone([]shard{s}, repo) {
 				continue
 			}
 			simple = append(simple, s)
@@ -380,6 +380,26 @@ func maybeSetTombstone(shards []shard, repoID uint32) bool {
 		_ = os.Remove(shards[0].Path)
 	}
 	return true
+}
+
+// servesOtherRepos reports whether s is a compound shard in which a repository
+// other than repoID is still alive. Such a shard must not be deleted on behalf
+// of repoID, even if shard merging is disabled, since that would drop the
+// other repositories from the index.
+func servesOtherRepos(s shard, repoID uint32) bool {
+	if !strings.HasPrefix(filepath.Base(s.Path), "compound-") {
+		return false
+	}
+	repos, _, err := index.ReadMetadataPathAlive(s.Path)
+	if err != nil {
+		return false
+	}
+	for _, r := range repos {
+		if r.ID != repoID {
+			return true
+		}
+	}
+	return false
 }
 
 var metricVacuumRunning = promauto.NewGauge(prometheus.GaugeOpts{
